@@ -37,8 +37,8 @@ pub type Result<T> = result::Result<T, Error>;
 fn internal_error<S: fmt::Display>(reason: S) -> Error {
     let message = reason.to_string();
     if message.starts_with("Corruption:") {
-        InternalErrorKind::Database.other(message).into()
-    } else {
         InternalErrorKind::DataCorrupted.other(message).into()
+    } else {
+        InternalErrorKind::Database.other(message).into()
     }
 }
